@@ -255,6 +255,7 @@ func vfC01Case(rt *rapid.T, c *ev.Collector) {
 	paranoidBudget := 1500
 	slowWrites := 0
 	coalesced := false
+	readSized := false
 	multiFrame := [2]bool{}
 
 	eps := [2]*drive.Endpoint{p.Cl, p.Sv}
@@ -342,6 +343,17 @@ func vfC01Case(rt *rapid.T, c *ev.Collector) {
 		}
 		rel := p.N.Released(side)
 		kind := rapid.IntRange(0, 9).Draw(rt, "plan")
+		if pend >= consumeReadSize-1 && rapid.IntRange(0, 2).Draw(rt, "readSizedSegment") > 0 {
+			// a segment that fills the endpoint's read buffer exactly (or +-1), then silence
+			d2 := rapid.IntRange(-1, 1).Draw(rt, "readSizeDelta")
+			mult := 1
+			if pend >= 2*consumeReadSize+1 && rapid.Bool().Draw(rt, "readSizeDouble") {
+				mult = 2
+			}
+			doRelease(d, mult*consumeReadSize+d2, fmt.Sprintf("readbuf*%d%+d", mult, d2))
+			readSized = true
+			return
+		}
 		switch {
 		case kind < 2: // run of 1-byte segments
 			run := rapid.IntRange(1, 40).Draw(rt, "run")
@@ -412,6 +424,9 @@ func vfC01Case(rt *rapid.T, c *ev.Collector) {
 			if rapid.IntRange(0, 2).Draw(rt, "randSizeC") == 0 {
 				n = rapid.IntRange(0, 6000).Draw(rt, "nC")
 			}
+			if iat[0] == iatNone && rapid.IntRange(0, 7).Draw(rt, "bigC") == 0 {
+				n = rapid.SampledFrom([]int{23168, 32768, 40000, 65536, 70000}).Draw(rt, "bigSizeC")
+			}
 			doWrite(0, n)
 		case a < 40:
 			if slowWrites >= 4 && iat[1] != iatNone {
@@ -420,6 +435,9 @@ func vfC01Case(rt *rapid.T, c *ev.Collector) {
 			n := rapid.SampledFrom(vfWriteSizes).Draw(rt, "sizeS")
 			if rapid.IntRange(0, 2).Draw(rt, "randSizeS") == 0 {
 				n = rapid.IntRange(0, 6000).Draw(rt, "nS")
+			}
+			if iat[1] == iatNone && rapid.IntRange(0, 7).Draw(rt, "bigS") == 0 {
+				n = rapid.SampledFrom([]int{23168, 32768, 40000, 65536, 70000}).Draw(rt, "bigSizeS")
 			}
 			doWrite(1, n)
 		case a < 65:
@@ -462,6 +480,9 @@ func vfC01Case(rt *rapid.T, c *ev.Collector) {
 	if inside {
 		cls = append(cls, "release-inside-frame")
 	}
+	if readSized {
+		cls = append(cls, "segment-of-exactly-the-read-buffer-size")
+	}
 	if strings.Contains(strings.Join(hist, " "), "(0)") {
 		cls = append(cls, "zero-length-write")
 	}
@@ -477,7 +498,7 @@ func vfC01Case(rt *rapid.T, c *ev.Collector) {
 func TestVerifC01Lockstep(t *testing.T) {
 	vfSetup(t)
 	c := ev.For("C01")
-	c.Rule("lockstep: real client and real server (public factories) on a gated in-memory wire; generated bridge (seed incl. tables containing 0, IAT mode, bias, bridge-line form), then up to 40 actions write(side,n)/release(direction, segment plan: 1-byte runs, 2, to a frame/burst/handshake-field boundary -1/0/+1, k, all)/reader buffer size, handshake bytes released by the same actions; oracle after every action at quiescence: bytes obtained are a prefix of what the peer wrote and at least the plaintext of all payload frames completely released; at the end everything is released and both streams must be complete; non-trivial = a multi-frame write, data in both directions, a release ending strictly inside a frame, and (handshake+payload coalesced in one segment or a 1-byte run across a frame header); fingerprint = configuration + action list")
+	c.Rule("lockstep: real client and real server (public factories) on a gated in-memory wire; generated bridge (seed incl. tables containing 0, IAT mode, bias, bridge-line form), then up to 40 actions write(side,n)/release(direction, segment plan: 1-byte runs, 2, to a frame/burst/handshake-field boundary -1/0/+1, k, all, exactly one or two read buffers (23168 bytes) -1/0/+1); iat-mode 0 writes occasionally 23168..70000 bytes/reader buffer size, handshake bytes released by the same actions; oracle after every action at quiescence: bytes obtained are a prefix of what the peer wrote and at least the plaintext of all payload frames completely released; at the end everything is released and both streams must be complete; non-trivial = a multi-frame write, data in both directions, a release ending strictly inside a frame, and (handshake+payload coalesced in one segment or a 1-byte run across a frame header); fingerprint = configuration + action list")
 	c.Assume("frame layout of a burst (payload frames of <= 1427 bytes first, padding frames after) as stated in the property's mechanism; interleavings explored at action granularity")
 	c.Floor("iat-0/lockstep", 0.15)
 	c.Floor("iat-1/lockstep", 0.15)
@@ -485,6 +506,7 @@ func TestVerifC01Lockstep(t *testing.T) {
 	c.Floor("coalesced-handshake+payload/lockstep", 0.10)
 	c.Floor("biased/lockstep", 0.20)
 	c.Floor("zero-length-write/lockstep", 0.05)
+	c.Floor("segment-of-exactly-the-read-buffer-size/lockstep", 0.03)
 	rapid.Check(t, func(rt *rapid.T) { vfC01Case(rt, c) })
 }
 
